@@ -29,6 +29,7 @@ def casing(word, mode, rnd):
 def render(toks, seed, case='lower', layout='mixed', keep=None):
     """-> text, tokpos (per canonical token: p, sl, sc, el, ec, so, eo)"""
     rnd = random.Random(seed)
+    crnd = random.Random(seed * 7 + 3)      # letter case draws from its own stream: the layout does not depend on the case
     text = ''
     line = 1
     tokpos = []
@@ -58,9 +59,9 @@ def render(toks, seed, case='lower', layout='mixed', keep=None):
         if word.split(' ')[0] == 'end' and ' ' in word:            # END_IF / END_FOR / END_WHILE: inner whitespace
             inner = rnd.choice([' ', ' ', '  ', '\t', '\n']) if layout != 'plain' else ' '
             a, b = word.split(' ')
-            word = casing(a, case, rnd) + inner + casing(b, case, rnd)
+            word = casing(a, case, crnd) + inner + casing(b, case, crnd)
         elif word.lower() in KEYWORDS and word == word.lower():
-            word = casing(word, case, rnd)
+            word = casing(word, case, crnd)
         so = len(text)
         sl = line
         sc = so - text.rfind('\n', 0, so)
